@@ -21,6 +21,8 @@ import (
 	"io"
 	"math/rand"
 	"net/http"
+	"os"
+	"path/filepath"
 	"strings"
 	"sync"
 	"sync/atomic"
@@ -752,4 +754,63 @@ func tagOrderTrial(r *vh.Run, i int) {
 	}
 	r.Count("tag_order_trials", 1)
 	r.Distinct("tag_order_cells", fmt.Sprint(kind, ord, artWhen))
+}
+
+// entryWithoutContent (C06): "leaves no index entry without backing content".  The content of a manifest is removed
+// through the blob API (or behind the registry's back) while its index entry stays; one pass later index.json has
+// no entry whose blob is missing - whether the policy would have kept that entry or not - and a repository in which
+// nothing else is left is removed when so configured.  Directory store (the entries are observable in index.json).
+func entryWithoutContent(r *vh.Run, i int) {
+	root := r.TempDir("ewc")
+	defer vh.RemoveAll(root)
+	untaggedPolicy := i%2 == 0
+	how := []string{"blob-api", "file-removed"}[(i/2)%2]
+	emptied := (i/4)%2 == 1
+	pol := vh.Policy{Untagged: untaggedPolicy, Dangling: true, WithSubj: true, EmptyRepo: true, Grace: -1}
+	srv := vh.New(vh.Conf(vh.Dir, root, pol))
+	defer func() { _ = srv.Close() }()
+	wit := map[string]any{"trial": i, "gc_untagged": untaggedPolicy, "content_removed_by": how, "rest_of_repository_deleted": emptied}
+	cfg := &vh.Blob{Name: "cfg", B: []byte(fmt.Sprintf("ewc config %d", i))}
+	cfg.D = vh.DigestOf("sha256", cfg.B)
+	keep := vh.MkImage("keep", "sha256", vh.MTImage, cfg, vh.MTConfig, nil, "", "", map[string]string{"k": fmt.Sprint(i)})
+	lost := vh.MkImage("lost", "sha256", vh.MTImage, cfg, vh.MTConfig, nil, "", "", map[string]string{"l": fmt.Sprint(i)})
+	vh.Do(srv, vh.Req{Method: "POST", URL: "/v2/e/blobs/uploads/?digest=" + cfg.D, Body: cfg.B})
+	ok := vh.Do(srv, vh.Req{Method: "PUT", URL: "/v2/e/manifests/kept", H: map[string]string{"Content-Type": keep.MT}, Body: keep.Raw}).Status == 201
+	ok = ok && vh.Do(srv, vh.Req{Method: "PUT", URL: "/v2/e/manifests/" + lost.D, H: map[string]string{"Content-Type": lost.MT}, Body: lost.Raw}).Status == 201
+	if !ok {
+		r.Inconclusive("entryWithoutContent: setup refused")
+		return
+	}
+	if how == "blob-api" {
+		if st := vh.Do(srv, vh.Req{Method: "DELETE", URL: "/v2/e/blobs/" + lost.D}).Status; st != 202 {
+			r.Inconclusive(fmt.Sprintf("entryWithoutContent: blob delete answered %d", st))
+			return
+		}
+	} else {
+		_ = os.Remove(filepath.Join(root, "e", "blobs", "sha256", lost.D[7:]))
+	}
+	if emptied {
+		vh.Do(srv, vh.Req{Method: "DELETE", URL: "/v2/e/manifests/" + keep.D})
+		vh.Do(srv, vh.Req{Method: "DELETE", URL: "/v2/e/blobs/" + cfg.D})
+	}
+	for pass := 1; pass <= 2; pass++ {
+		_ = srv.VerifGC(context.Background(), "e")
+		wit["pass"] = pass
+		if b, err := os.ReadFile(filepath.Join(root, "e", "index.json")); err == nil && strings.Contains(string(b), lost.D) {
+			r.Violation("index-entry-without-content", fmt.Sprintf("directory store, gc-untagged=%v: the blob of an untagged manifest was removed (%s), its index entry is still in index.json after collection pass %d", untaggedPolicy, how, pass), wit)
+			return
+		}
+	}
+	if emptied {
+		if _, err := os.Stat(filepath.Join(root, "e")); err == nil {
+			if ents, _ := os.ReadDir(filepath.Join(root, "e")); len(ents) > 0 {
+				r.Violation("empty-repository-kept", "directory store, EmptyRepo on: everything in the repository was deleted (one manifest lost its content first); after two passes the repository directory is still there", wit)
+				return
+			}
+		}
+	} else if rs := vh.Do(srv, vh.Req{Method: "GET", URL: "/v2/e/manifests/kept", H: map[string]string{"Accept": vh.AcceptAll}}); rs.Status != 200 {
+		r.Violation("tagged-image-lost:entry-without-content", fmt.Sprintf("the tagged image next to the damaged entry answers %d after the passes", rs.Status), wit)
+		return
+	}
+	r.Count("entry_without_content_trials", 1)
 }
